@@ -191,8 +191,9 @@ Inductive err :=
 
 Definition outcome := (registry * list deletion * option err)%type.
 
-Definition step (w : bool) (cf : deletion -> bool) (r : registry) (l : line) : outcome :=
-  match classify l with
+(* the body of the loop once the line has been classified *)
+Definition step_req (w : bool) (cf : deletion -> bool) (r : registry) (q : request) : outcome :=
+  match q with
   | QDecodeError => (r, [], Some EDecode)
   | QProbe => (r, [], None)
   | QBadType => (r, [], Some EUnknownType)
@@ -221,6 +222,9 @@ Definition step (w : bool) (cf : deletion -> bool) (r : registry) (l : line) : o
           else (reg_put r t d1, [], None)
       end
   end.
+
+Definition step (w : bool) (cf : deletion -> bool) (r : registry) (l : line) : outcome :=
+  step_req w cf r (classify l).
 
 Definition o_reg (o : outcome) : registry := fst (fst o).
 Definition o_del (o : outcome) : list deletion := snd (fst o).
